@@ -62,6 +62,7 @@ type rpcEnv struct {
 	done    int32
 	nDeliv  int
 	returned []int // question ids the script has sent a Return for
+	stall    chan struct{} // closed by fG: stalled PlaceArgs and held releases proceed
 }
 
 func (e *rpcEnv) ev(s string) {
@@ -76,6 +77,7 @@ type heldCall struct {
 
 type localCall struct {
 	id     int
+	amu    sync.Mutex
 	ans    *capnp.Answer
 	rel    capnp.ReleaseFunc
 	cancel context.CancelFunc
@@ -233,6 +235,8 @@ type scriptTransport struct {
 	failNew    int // fail the NewMessage whose countdown reaches 1
 	failSend   int
 	failRecv   bool
+	holdNext   bool
+	hold       chan struct{}
 	live       int32 // messages created and not yet released
 	recvLive   int32
 	sentAfterC int32
@@ -331,12 +335,38 @@ func (t *scriptTransport) RecvMessage(ctx context.Context) (rpccp.Message, capnp
 		}
 		atomic.AddInt32(&t.recvLive, 1)
 		var once sync.Once
-		return rmsg, func() { once.Do(func() { atomic.AddInt32(&t.recvLive, -1) }) }, nil
+		var hold chan struct{}
+		t.mu.Lock()
+		if t.holdNext {
+			t.holdNext = false
+			t.hold = make(chan struct{})
+			hold = t.hold
+		}
+		t.mu.Unlock()
+		return rmsg, func() {
+			if hold != nil {
+				select {
+				case <-hold:
+				case <-time.After(10 * time.Second):
+				}
+			}
+			once.Do(func() { atomic.AddInt32(&t.recvLive, -1) })
+		}, nil
 	case <-ctx.Done():
 		return rpccp.Message{}, nil, ctx.Err()
 	case <-t.closed:
 		return rpccp.Message{}, nil, errors.New("transport closed")
 	}
+}
+
+func (t *scriptTransport) unhold() {
+	t.mu.Lock()
+	if t.hold != nil {
+		close(t.hold)
+		t.hold = nil
+	}
+	t.holdNext = false
+	t.mu.Unlock()
 }
 
 func (t *scriptTransport) Close() error {
@@ -834,9 +864,49 @@ func classifyRPCErr(err error) string {
 	return "err"
 }
 
+func (lc *localCall) setAns(a *capnp.Answer, r capnp.ReleaseFunc) {
+	lc.amu.Lock()
+	lc.ans, lc.rel = a, r
+	lc.amu.Unlock()
+}
+
+func (lc *localCall) getAns() *capnp.Answer {
+	lc.amu.Lock()
+	defer lc.amu.Unlock()
+	return lc.ans
+}
+
+func (lc *localCall) getRel() capnp.ReleaseFunc {
+	lc.amu.Lock()
+	defer lc.amu.Unlock()
+	return lc.rel
+}
+
+// stallChan: the channel stalled operations wait on (created on demand); nil when the op does not stall
+func (e *rpcEnv) stallChan(want bool) chan struct{} {
+	if !want {
+		return nil
+	}
+	e.mu.Lock()
+	defer e.mu.Unlock()
+	if e.stall == nil {
+		e.stall = make(chan struct{})
+	}
+	return e.stall
+}
+
+func (e *rpcEnv) unstall() {
+	e.mu.Lock()
+	if e.stall != nil {
+		close(e.stall)
+		e.stall = nil
+	}
+	e.mu.Unlock()
+}
+
 func (e *rpcEnv) watch(lc *localCall) {
 	go func() {
-		st, err := lc.ans.Struct()
+		st, err := lc.getAns().Struct()
 		r := classifyRPCErr(err)
 		if err == nil {
 			lc.result = st
@@ -873,11 +943,14 @@ func (e *rpcEnv) localOp(op string) string {
 		}
 		e.handles = append(e.handles, c)
 		return "h" + strconv.Itoa(len(e.handles)-1)
-	case 'C':
+	case 'C', 'A', 'S':
+		// C: call; A: the same, not waiting for SendCall to return; S: asynchronous, and PlaceArgs stalls until fG
 		if len(f) < 2 || atoi(f[0]) >= len(e.handles) || e.handles[atoi(f[0])] == nil {
 			return "skip"
 		}
 		h := e.handles[atoi(f[0])]
+		async := op[1] != 'C'
+		stall := e.stallChan(op[1] == 'S')
 		var pass *capnp.Client
 		if len(f) > 2 && len(f[2]) > 1 {
 			n := atoi(f[2][1:])
@@ -901,11 +974,17 @@ func (e *rpcEnv) localOp(op string) string {
 		ctx, cancel := context.WithCancel(context.Background())
 		lc := &localCall{id: id, cancel: cancel}
 		e.lcalls = append(e.lcalls, lc)
-		ok := deadline(func() {
-			lc.ans, lc.rel = h.SendCall(ctx, capnp.Send{
+		run := func() {
+			ans, rel := h.SendCall(ctx, capnp.Send{
 				Method:   capnp.Method{InterfaceID: rpcIface, MethodID: uint16(atoi(f[1]))},
 				ArgsSize: capnp.ObjectSize{DataSize: 8, PointerCount: 2},
 				PlaceArgs: func(s capnp.Struct) error {
+					if stall != nil {
+						select {
+						case <-stall:
+						case <-time.After(10 * time.Second):
+						}
+					}
 					s.SetUint64(0, uint64(id)+1000)
 					if pass != nil {
 						in := capnp.NewInterface(s.Segment(), s.Message().AddCap(pass.AddRef()))
@@ -914,32 +993,53 @@ func (e *rpcEnv) localOp(op string) string {
 					return nil
 				},
 			})
-		})
-		if !ok {
+			lc.setAns(ans, rel)
+			e.watch(lc)
+		}
+		if async {
+			go run()
+			return "c" + strconv.Itoa(id)
+		}
+		if !deadline(run) {
 			return "blocked"
 		}
-		e.watch(lc)
 		return "c" + strconv.Itoa(id)
-	case 'P':
-		if len(f) < 3 || atoi(f[0]) >= len(e.lcalls) || e.lcalls[atoi(f[0])].ans == nil {
+	case 'P', 'Q':
+		// P: pipelined call; Q: asynchronous, PlaceArgs stalls until fG
+		if len(f) < 3 || atoi(f[0]) >= len(e.lcalls) || e.lcalls[atoi(f[0])].getAns() == nil {
 			return "skip"
 		}
 		base := e.lcalls[atoi(f[0])]
+		stall := e.stallChan(op[1] == 'Q')
 		id := len(e.lcalls)
 		ctx, cancel := context.WithCancel(context.Background())
 		lc := &localCall{id: id, cancel: cancel}
 		e.lcalls = append(e.lcalls, lc)
-		ok := deadline(func() {
-			lc.ans, lc.rel = base.ans.PipelineSend(ctx, []capnp.PipelineOp{{Field: uint16(atoi(f[1]))}}, capnp.Send{
-				Method:    capnp.Method{InterfaceID: rpcIface, MethodID: uint16(atoi(f[2]))},
-				ArgsSize:  capnp.ObjectSize{DataSize: 8, PointerCount: 2},
-				PlaceArgs: func(s capnp.Struct) error { s.SetUint64(0, uint64(id)+1000); return nil },
+		run := func() {
+			ans, rel := base.getAns().PipelineSend(ctx, []capnp.PipelineOp{{Field: uint16(atoi(f[1]))}}, capnp.Send{
+				Method:   capnp.Method{InterfaceID: rpcIface, MethodID: uint16(atoi(f[2]))},
+				ArgsSize: capnp.ObjectSize{DataSize: 8, PointerCount: 2},
+				PlaceArgs: func(s capnp.Struct) error {
+					if stall != nil {
+						select {
+						case <-stall:
+						case <-time.After(10 * time.Second):
+						}
+					}
+					s.SetUint64(0, uint64(id)+1000)
+					return nil
+				},
 			})
-		})
-		if !ok {
+			lc.setAns(ans, rel)
+			e.watch(lc)
+		}
+		if stall != nil {
+			go run()
+			return "c" + strconv.Itoa(id)
+		}
+		if !deadline(run) {
 			return "blocked"
 		}
-		e.watch(lc)
 		return "c" + strconv.Itoa(id)
 	case 'H':
 		if len(f) < 2 || atoi(f[0]) >= len(e.lcalls) {
@@ -955,13 +1055,17 @@ func (e *rpcEnv) localOp(op string) string {
 		}
 		e.handles = append(e.handles, p.Interface().Client().AddRef())
 		return "h" + strconv.Itoa(len(e.handles)-1)
-	case 'R':
+	case 'R', 'r':
 		n := atoi(f[0])
 		if n >= len(e.handles) || e.handles[n] == nil {
 			return "skip"
 		}
 		h := e.handles[n]
 		e.handles[n] = nil
+		if op[1] == 'r' {
+			go h.Release() // may have to wait for a call in flight
+			return "-"
+		}
 		if !deadline(func() { h.Release() }) {
 			return "blocked"
 		}
@@ -1118,8 +1222,14 @@ func execRPCScript(script string, bootstrap bool) string {
 				e.t.failSend = n
 			case 'V':
 				e.t.failRecv = true
+			case 'H':
+				e.t.holdNext = true // the release of the next received message waits for fG
 			}
 			e.t.mu.Unlock()
+			if op[1] == 'G' {
+				e.unstall()
+				e.t.unhold()
+			}
 			if op[1] == 'V' {
 				// wake the receive loop so that it runs into the fault
 				select {
@@ -1139,6 +1249,8 @@ func execRPCScript(script string, bootstrap bool) string {
 	tail := ""
 	fin := make(chan struct{})
 	go func() {
+		e.unstall()
+		e.t.unhold()
 		for _, lc := range e.lcalls {
 			lc.cancel()
 		}
@@ -1161,8 +1273,8 @@ func execRPCScript(script string, bootstrap bool) string {
 			}
 		}
 		for _, lc := range e.lcalls {
-			if lc.rel != nil {
-				lc.rel()
+			if rel := lc.getRel(); rel != nil {
+				rel()
 			}
 		}
 		close(fin)
@@ -1181,6 +1293,11 @@ func execRPCScript(script string, bootstrap bool) string {
 		a.client.Release()
 	}
 	e.settle()
+	for _, lc := range e.lcalls {
+		if r, _ := lc.res.Load().(string); r == "" {
+			tail += fmt.Sprintf(" !local-call-c%d-never-resolved", lc.id)
+		}
+	}
 	for _, a := range caps {
 		if n := atomic.LoadInt32(&a.shutdowns); n != 1 {
 			tail += fmt.Sprintf(" !k%d-shutdown-%d-times", a.id, n)
@@ -1223,6 +1340,16 @@ func execRPC(f []string) string {
 			return "bad-op"
 		}
 		return execRPCCheck(f[1] == "1", f[2])
+	case "stream":
+		if len(f) != 4 {
+			return "bad-op"
+		}
+		n, _ := strconv.Atoi(f[2])
+		plan := f[3]
+		if plan == "-" {
+			plan = ""
+		}
+		return execRPCStream(f[1] == "1", n, plan)
 	}
 	return "bad-op"
 }
@@ -1728,6 +1855,14 @@ var rpcDirected = []string{
 	"lB,pRQ0:boot:s1,lC0:2,pRQ0:ok:s1,lH0:0,lR0,lR1",   // the same import received twice, both handles released
 	"lB,lC0:0,lX0,pRQ1:ok:s2,lB",                       // Return for a cancelled question, then id reuse
 	"pB0,pC1:e0:4,pC2:e0:4,pF1:1,pF2:1,pL0:1",          // several references on one export given back in steps
+	// embargo: a local capability comes back as receiverHosted while a call was pipelined on that result; a direct call on
+	// the resolved capability waits behind the Disembargo loop-back (the peer reflects the pipelined call as question 1001)
+	"1lB,pRQ0:boot:s1,lC0:5:k0,lP0:0:0,pRQ0:ok:r0,lH0:0,lA1:0,pC1001:e0:0,pDr0:e0,pF1001:0",
+	"1lB,pRQ0:boot:s1,lC0:5:k0,lQ0:0:0,pRQ0:ok:r0,fG,lH0:0,lA1:0,pC1001:e0:0,pDr0:e0", // the Return arrives while the pipelined call is being built
+	"1lB,pRQ0:boot:s1,lC0:5:k0,lP0:0:0,pRQ0:ok:r0,lH0:0,lA1:0,pF777:0",               // the peer breaks the protocol instead of looping back
+	"1lB,pRQ0:boot:s1,lC0:5:k0,lP0:0:0,pRQ0:ok:r0,lH0:0,lA1:0,fN1,lZ",                // Close (abort message cannot be created) while embargoed
+	"1lB,fH,pRQ0:boot:s1,lB,fG,pRQ0:boot:s1",                                         // a new question while the Return's Finish is still to be sent
+	"1lB,lB,pRQ0:boot:s1,lS0:0,lr0,pRQ0:boot:s1,fG,lR1",                               // a reference to an import arrives while its last handle is being released
 }
 
 func genRPCCheck(rec *lib.Rec, r *lib.Rng, n int, hostile, faults bool) {
@@ -1740,6 +1875,7 @@ func genRPCCheck(rec *lib.Rec, r *lib.Rng, n int, hostile, faults bool) {
 			if strings.HasPrefix(d, "lB") {
 				boot = r.Intn(2)
 			}
+			d = strings.TrimPrefix(d, "1")
 			s = d + "," + s
 		}
 		rec.Op("S", "rpc check "+strconv.Itoa(boot)+" "+s, true)
@@ -1765,10 +1901,198 @@ func genC08(rec *lib.Rec, r *lib.Rng, thorough bool) {
 	genRPCCheck(rec, r, n/Shards, true, false)
 }
 
+// base scenarios for the fault enumeration: every position x every fault kind
+var rpcFaultBases = []string{
+	"lB,pRQ0:boot:s1,lC0:0,pRQ0:ok,lR0,lZ",
+	"lB,lC0:0,lX0,pRQ1:ok,pRQ0:boot:s1,lZ",
+	"lB,lC0:2,lP0:0:0,pRQ0:boot:s1,pRQ0:ok:s2,pRQ0:ok,lZ",
+	"pB0,pC1:e0:0,pF1:0,pF0:1,lZ",
+	"pB0,pC1:e0:1,pC2:a1.0:0,aR0:cap,pF1:0,pF2:1,lZ",
+	"pB0,pC1:e0:1,pF1:0,lZ",
+	"pB0,pC1:e0:2:s1,pL0:1,pF1:1,lZ",
+	"lB,pRQ0:boot:s1,lC0:0:k0,pRQ0:ok:rX0,lH0:0,lR1,lR0,lZ",
+	"pB0,pJ,pU,pC1:e0:3,lZ,lZ",
+}
+
 func genC09(rec *lib.Rec, r *lib.Rng, thorough bool) {
 	n := 400
 	if thorough {
 		n = 12000
 	}
 	genRPCCheck(rec, r, n/Shards, false, true)
+	k := 0
+	for _, base := range rpcFaultBases {
+		ops := strings.Split(base, ",")
+		for pos := 0; pos < len(ops); pos++ {
+			for _, f := range []string{"fN1", "fS1", "fN2", "fS2", "fV", "lZ", "fN1,fS1"} {
+				k++
+				if k%Shards != Shard || (!thorough && f == "fS2") {
+					continue
+				}
+				s := append(append(append([]string{}, ops[:pos]...), f), ops[pos:]...)
+				rec.Op("S", "rpc check 1 "+strings.Join(s, ","), true)
+			}
+		}
+	}
+	// the stream transport's write side: every placement of one or two failing Writes over a few frames, then random plans
+	if Shard == 0 {
+		for _, packed := range []string{"0", "1"} {
+			for i := 0; i < 8; i++ {
+				for _, k := range []string{"p", "z"} {
+					plan := strings.Repeat("f", i) + k
+					rec.Op("M", "rpc stream "+packed+" 5 "+plan, true)
+					for j := 0; j < 4; j++ {
+						rec.Op("M", "rpc stream "+packed+" 5 "+plan+strings.Repeat("f", j)+r.PickS("p", "z"), true)
+					}
+				}
+			}
+		}
+	}
+	for i := 0; i < n/Shards; i++ {
+		plan := make([]byte, 2+r.Intn(14))
+		for j := range plan {
+			plan[j] = "ffffffpz"[r.Intn(8)]
+		}
+		rec.Op("M", fmt.Sprintf("rpc stream %d %d %s", r.Intn(2), 2+r.Intn(6), plan), true)
+	}
+}
+
+// ---- stream transport, write side: "rpc stream <packed 0|1> <frames> <write outcomes>" ----
+//
+// <frames> messages are sent through rpc.NewStreamTransport over a scripted writer.  The writer's k-th Write returns
+// according to the k-th letter of <write outcomes>: f = everything, p = a proper non-empty part + error,
+// z = nothing + error; beyond the end of the string every Write succeeds.  Output: the result of each send and
+// what reached the stream: w = a whole frame, t = a torn one; "!" when bytes follow a torn frame.
+
+type faultyRWC struct {
+	plan    string
+	k       int
+	chunks  [][]byte // what reached the stream, one chunk per Write
+	writes  []int    // index of the send each chunk belongs to
+	cur     int
+	blockCh chan struct{}
+}
+
+func (f *faultyRWC) Read(p []byte) (int, error) { <-f.blockCh; return 0, errors.New("closed") }
+func (f *faultyRWC) Close() error {
+	select {
+	case <-f.blockCh:
+	default:
+		close(f.blockCh)
+	}
+	return nil
+}
+func (f *faultyRWC) Write(p []byte) (int, error) {
+	o := byte('f')
+	if f.k < len(f.plan) {
+		o = f.plan[f.k]
+	}
+	f.k++
+	n := len(p)
+	var err error
+	switch o {
+	case 'p':
+		n = len(p) / 2
+		if n == 0 {
+			n = 1
+		}
+		if n >= len(p) {
+			n = 0
+		}
+		err = errInjected
+	case 'z':
+		n = 0
+		err = errInjected
+	}
+	if n > 0 {
+		f.chunks = append(f.chunks, append([]byte(nil), p[:n]...))
+		f.writes = append(f.writes, f.cur)
+	}
+	return n, err
+}
+
+func execRPCStream(packed bool, frames int, plan string) string {
+	rwc := &faultyRWC{plan: plan, blockCh: make(chan struct{})}
+	var tr rpc.Transport
+	if packed {
+		tr = rpc.NewPackedStreamTransport(rwc)
+	} else {
+		tr = rpc.NewStreamTransport(rwc)
+	}
+	// like Conn: a receive is in progress, and is abandoned (context cancelled) before the transport is closed
+	rctx, rcancel := context.WithCancel(context.Background())
+	recvDone := make(chan struct{})
+	go func() { tr.RecvMessage(rctx); close(recvDone) }()
+	var res []string
+	var full [][]byte
+	for i := 0; i < frames; i++ {
+		rwc.cur = i
+		msg, send, release, err := tr.NewMessage(context.Background())
+		if err != nil {
+			res = append(res, "n") // NewMessage refused: the stream is marked broken
+			full = append(full, nil)
+			continue
+		}
+		b, _ := msg.NewBootstrap()
+		b.SetQuestionId(uint32(1000 + i))
+		var want []byte
+		if packed {
+			want, _ = msg.Message().MarshalPacked()
+		} else {
+			want, _ = msg.Message().Marshal()
+		}
+		full = append(full, want)
+		if err := send(); err != nil {
+			res = append(res, "e")
+		} else {
+			res = append(res, "o")
+		}
+		release()
+	}
+	rcancel()
+	closeBad := ""
+	select {
+	case <-recvDone:
+	case <-time.After(3 * time.Second):
+		closeBad = " !receive-not-cancelled"
+	}
+	closed := make(chan struct{})
+	go func() { tr.Close(); close(closed) }()
+	select {
+	case <-closed:
+	case <-time.After(3 * time.Second):
+		closeBad += " !close-blocked"
+		rwc.Close()
+	}
+	// classify what reached the stream, frame by frame
+	got := make([][]byte, frames)
+	for i, c := range rwc.chunks {
+		got[rwc.writes[i]] = append(got[rwc.writes[i]], c...)
+	}
+	var shape []string
+	torn := false
+	bad := ""
+	for i := 0; i < frames; i++ {
+		if len(got[i]) == 0 {
+			continue
+		}
+		if torn {
+			bad = "!bytes-after-torn-frame"
+		}
+		switch {
+		case string(got[i]) == string(full[i]):
+			shape = append(shape, "w")
+		case len(got[i]) < len(full[i]) && string(got[i]) == string(full[i][:len(got[i])]):
+			shape = append(shape, "t")
+			torn = true
+		default:
+			shape = append(shape, "?")
+			bad = "!unexpected-bytes"
+		}
+	}
+	out := strings.Join(res, "") + " " + strings.Join(shape, "")
+	if bad != "" {
+		out += " " + bad
+	}
+	return out + closeBad
 }
